@@ -309,6 +309,17 @@ def run_property(spec: Spec, tier: str, seed: int, jobs: int, only=None, verbose
         if exit_code == EXIT_HARNESS:
             return exit_code, None
 
+        # 1b. differential validation of the model environment against the real filesystem (blocks a clean pass on disagreement)
+        model_validation = None
+        if any(h.real for h in harnesses) or spec.pid in ("C15", "C16", "C17"):
+            mv = subprocess.run([PY, "-m", "vf.validate_model"], env=_base_env({}, seed, "concrete"), cwd=VERIF, capture_output=True, text=True,
+                                timeout=600)
+            agree = mv.stdout.count(": agree")
+            model_validation = {"scenarios_agreeing": agree, "exit": mv.returncode}
+            if mv.returncode != 0:
+                say(f"HARNESS-ERROR property={spec.pid} model environment disagrees with the real filesystem:\n{mv.stdout[-1500:]}{mv.stderr[-500:]}")
+                exit_code = EXIT_HARNESS
+
         # 2. solver jobs
         todo = []
         for h in harnesses:
@@ -424,6 +435,7 @@ def run_property(spec: Spec, tier: str, seed: int, jobs: int, only=None, verbose
                 "harnesses": per_h,
                 "outside_the_bound": spec.outside,
                 "repo": repo_state(),
+                "model_validation": model_validation,
                 "known_findings_open": sorted(known_printed),
                 "violations_replays": violations,
             },
